@@ -4,7 +4,7 @@ System: real LocalNode + SdoServer + Network.notify dispatch, driven frame by
 frame by RefSdoClient (strict CiA 301 client model).  Histories start from a
 freshly created node and interleave valid transfers with garbage frames.
 """
-from simcan import srvside
+from simcan import srvside, world
 from simcan.models import codec
 from simcan.models.sdo_client import Nonconformance
 from simcan.util import site
@@ -31,7 +31,7 @@ COMPONENTS = {
     "stub": ["CAN backend (SimBus)", "can.Notifier (frames fed to Network.notify by the simulator)", "SDO client (RefSdoClient reference model)"],
 }
 PROBES = ["upload-exp", "upload-seg", "upload-empty", "download-exp", "download-seg", "download-empty", "garbage-fresh-node",
-          "garbage-inside-transfer", "restart-inside-transfer", "refusal", "source-callback", "source-stored", "source-parameter", "source-default", "dynamic-array-member"]
+          "garbage-inside-transfer", "restart-inside-transfer", "refusal", "source-callback", "source-stored", "source-parameter", "source-default", "dynamic-array-member", "read-callback-refuses-once", "write-callback-writes-a-sibling"]
 # probes that mark an injected disturbance; the runner also counts them as fired faults in the evidence
 FAULT_PROBES = {'garbage-fresh-node': 'garbage-request-frame',
  'garbage-inside-transfer': 'garbage-request-frame',
@@ -159,6 +159,15 @@ def _do_download(ctx, w, e, pos, length_override=None, style_override=None):
         seg_len = lambda: 7 - ctx.choice(7, "sl")
     what = "download %04X:%02X (%s, %s) %d bytes %s" % (e.index, e.sub, codec.NAMES.get(e.dtype, hex(e.dtype)), e.access, len(data), mode)
     nlog = len(w.wlog)
+    sib = None
+    if e.writable() and e.sub > 0 and ctx.choice(8, "sibling") == 1:
+        # the application's write callback, told about this download, writes another member of the same object through the
+        # node's own SDO API (once): both values must be there afterwards
+        cands = [x for x in w.entries.values() if x.index == e.index and x.sub != e.sub and x.sub > 0 and x.dtype not in codec.FIXED]
+        if cands:
+            sib = cands[ctx.choice(len(cands), "sibent")]
+            sdata = world.pattern(1 + ctx.choice(12, "siblen"), 31)
+            w.sibling_hook = ((e.index, e.sub), (sib.index, sib.sub), sdata)
     try:
         res = cl.download(e.index, e.sub, data, mode, seg_len)
     except Nonconformance as x:
@@ -180,6 +189,12 @@ def _do_download(ctx, w, e, pos, length_override=None, style_override=None):
     if len(data) == 0:
         ctx.probe("download-empty")
     e.stored = (val[0], data)
+    if sib is not None and w.sibling_hook is None:
+        sib.stored = (sdata, sdata)
+        ctx.probe("write-callback-writes-a-sibling")
+        if new == [(e.index, e.sub, data), (sib.index, sib.sub, sdata)]:
+            new = [(e.index, e.sub, data)]
+    w.sibling_hook = None
     if new != [(e.index, e.sub, data)]:
         ctx.violation("C02/write-callback-arguments", "%s: write callbacks saw %r" % (what, [(i, s, d[:16].hex(), len(d)) for i, s, d in new]))
 
@@ -337,13 +352,28 @@ def scenario(ctx):
     nops = 1 + ctx.choice(40 if mode == 0 else 6, "nops")
     for k in range(nops):
         with ctx.span("op"):
-            op = ctx.weighted(((6, "upload"), (5, "download"), (2, "garbage"), (2, "interrupt"), (1, "restart")), "op")
+            op = ctx.weighted(((6, "upload"), (5, "download"), (2, "garbage"), (2, "interrupt"), (1, "restart"), (1, "cb-refuses")), "op")
             if not entries:
                 op = "garbage"
             if op == "upload":
                 _do_upload(ctx, w, _pick_entry(ctx, w, entries), k)
             elif op == "download":
                 _do_download(ctx, w, _pick_entry(ctx, w, entries), k)
+            elif op == "cb-refuses":
+                # the application's read callback refuses ONE read of an entry (it raises SdoAbortedError, the documented way
+                # to do that): that request gets exactly one response; later uploads get the callback's value again
+                c = [x for x in w.entries.values() if x.cb is not None and x.readable()]
+                if c:
+                    x = c[ctx.choice(len(c), "refent")]
+                    w.refuse_once.add((x.index, x.sub))
+                    rs = w.client.exchange(bytes([0x40, x.index & 0xFF, x.index >> 8, x.sub, 0, 0, 0, 0]))
+                    w.client.state = None
+                    w.refuse_once.discard((x.index, x.sub))
+                    _check_rx(ctx, w, "upload of %04X:%02X refused by the application's read callback" % (x.index, x.sub))
+                    if len(rs) != 1 or len(rs[0]) != 8:
+                        ctx.violation("C02/garbage-response-count-%d/callback-refuses" % len(rs), "upload of %04X:%02X whose read callback raises SdoAbortedError was answered by %r" % (x.index, x.sub, [r.hex() for r in rs]))
+                    ctx.probe("read-callback-refuses-once")
+                    _do_upload(ctx, w, x, k)
             elif op == "garbage":
                 where = "fresh-node" if (k == 0 and w.client.sent == 0) else "boundary"
                 _do_garbage(ctx, w, GARBAGE[ctx.choice(len(GARBAGE), "gkind")], where)
